@@ -1157,7 +1157,7 @@ def run(rep, tier):
              "extend_path into a fresh Path, branch on a fresh boolean, fixing a registered size symbol to one of its candidates by branch+activate (the path branched from is then "
              "loaded again: it must not see the fix), skipped symbol ids; symbol counter absent or starting at 0/7/98 -- then the real SEVM.calldataload on every word of every registered calldata "
              "in the final path (successors made by the real Path.branch must keep the candidates of the other size symbols); mode cheat (30%): the real create_calldata_generic on a hand-made "
-             "build output, then a real SEVM run of PUSH2 off CALLDATALOAD STOP at every length word (and two other words) of every produced calldata on a path extending the caller's. "
+             "build output, then a real SEVM run of PUSH4 off CALLDATALOAD STOP at every length word (and two other words) of every produced calldata on a path extending the caller's. "
              "A session is non-trivial when at least two of its registered calldata have dynamic parameters.",
     )
 
